@@ -113,7 +113,9 @@ func c07Render(rng *RNG, entries []c07entry, width int, policy int) string {
 }
 
 func c07Text(rng *RNG) string {
-	pool := []string{"A", "z", "é", "ß", "Ω", "中", "あ", "\U0001D400", "\U0001F600", "fi", "ffi", "é", "𝒳y", "—", " ", "한", "äb"}
+	pool := []string{"A", "z", "é", "ß", "Ω", "中", "あ", "\U0001D400", "\U0001F600", "fi", "ffi", "é", "𝒳y", "—", " ", "한", "äb",
+		// boundary values of the UTF-16 forms and of byte carries
+		"\U00010000", "\U000103FF", "\U0010FC00", "\U0010FFFF", "\uFFFF", "\uE000", "\uD7FF", "\u00FE", "\u01FD", "\U0001D4FD", "\U0001F3FE", "f\u00FF"}
 	return pool[rng.Intn(len(pool))]
 }
 
@@ -249,8 +251,9 @@ func init() {
 				if rng.Chance(1, 2) && len(entries) > 0 && entries[len(entries)-1].code+1 == code {
 					// texts that count up in their last UTF-16 unit
 					pu := utf16.Encode([]rune(entries[len(entries)-1].text))
+					wraps := pu[len(pu)-1] == 0xFFFF
 					pu[len(pu)-1]++
-					if !utf16.IsSurrogate(rune(pu[len(pu)-1])) || len(pu) > 1 {
+					if !wraps && (!utf16.IsSurrogate(rune(pu[len(pu)-1])) || len(pu) > 1) {
 						dec := utf16.Decode(pu)
 						if utf8.ValidString(string(dec)) && !strings.ContainsRune(string(dec), utf8.RuneError) {
 							t = string(dec)
